@@ -6,9 +6,12 @@ THEOREMS = {
         "Dawgs.C04.Props.decode_encode", "Dawgs.C04.Props.decode_correct", "Dawgs.C04.Props.decode_total_or_error",
         "Dawgs.C04.Props.literal_pipeline", "Dawgs.C04.Props.builder_pipeline", "Dawgs.C04.Props.like_escape_literal",
         "Dawgs.C04.Props.key_unescape_escape", "Dawgs.C04.Props.jsonb_key_quoting", "Dawgs.C04.Props.nested_sql_param_bound",
-        "Dawgs.C04.Props.identifier_verbatim_unsafe", "Dawgs.C04.Props.identifier_partial", "Dawgs.C04.Props.identifier_fixed_token",
-        "Dawgs.C04.Props.identifier_fixed", "Dawgs.C04.Props.lexFast_eq_lex", "Dawgs.C04.Props.values_safe",
-        "Dawgs.C04.Props.c04_full_refuted", "Dawgs.C04.Props.c04_partial", "Dawgs.C04.Props.c04_fixed",
+        "Dawgs.C04.Props.interval_literal",
+        "Dawgs.C04.Props.identifier_quoted", "Dawgs.C04.Props.identifier_bare", "Dawgs.C04.Props.identifier_partial",
+        "Dawgs.C04.Props.identifier_fixed", "Dawgs.C04.Props.identifier_case_folded", "Dawgs.C04.Props.identifier_quote_all",
+        "Dawgs.C04.Props.identifier_verbatim_unsafe_old",
+        "Dawgs.C04.Props.lexFast_eq_lex", "Dawgs.C04.Props.values_safe",
+        "Dawgs.C04.Props.c04_full_refuted", "Dawgs.C04.Props.c04_partial", "Dawgs.C04.Props.c04_partial_old_refuted", "Dawgs.C04.Props.c04_fixed",
     ],
 }
 
@@ -89,13 +92,14 @@ SPEC = {
     "finding_key": finding_key,
     "extra_coverage": extra_coverage,
     "rule": "suite c04: cases = syntactic position templates (string literal in WHERE/IN/list/property map/RETURN/SET/CREATE/function argument/quantifier, "
-            "LIKE and regex operands, property key incl. back-ticked, map key, kind name, variable name, result alias, parameter name, supplied parameter "
-            "value bound and materialised, text reaching the SQL handed to the shortest-path functions as bound parameter and as nested literal) x hostile "
+            "LIKE and regex operands, every literal type the formatter has a branch for (interval/duration, date/time constructors, lists of strings, nested lists; "
+            "nested map literals are rejected by the translator today), property key incl. back-ticked, map key, kind name, variable name, result alias, parameter name, supplied parameter "
+            "value bound (string, list, JSONB map incl. nested values and map keys) and materialised, text reaching the SQL handed to the shortest-path functions as bound parameter and as nested literal) x hostile "
             "strings (fixed list of quotes, backslashes, comment openers, dollar quotes, @name, semicolons, NUL-free control characters, non-BMP runes, "
             "64 KiB strings, trailing backslash/quote; plus random fragment concatenations from splitmix64(VERIF_SEED)) x Cypher encodings (single-quoted, "
             "double-quoted, escape sequences, bare, back-ticked); each case translates the hostile query and a benign twin with the real code and the Lean "
             "lexer compares the two SQL texts; non-trivial = both twins were translated; distinct = distinct op lines. suite c04q: every generated string "
-            "through the real formatValue / NewStringLiteral / decodeCypherStringLiteral / UnescapePropertyKeyName vs the Lean functions, exact equality",
+            "through the real formatValue / formatIdentifier / NewStringLiteral / decodeCypherStringLiteral / UnescapePropertyKeyName vs the Lean functions, exact equality",
     "expected_branches": ["translated.lit", "translated.key", "translated.ident", "translated.kindname", "translated.param", "translated.paramlist",
                           "rejected.ident", "decode.ok", "decode.err:decode-invalid-escape", "decode.err:decode-dangling", "decode.err:decode-bad-literal"],
     "trusted_base": [
@@ -107,10 +111,13 @@ SPEC = {
     ],
     "assumptions": [
         "user text is NUL-free (the property's quantifier); the real code passes NUL through unchanged — measured per site in branch 'ok excluded-nul'",
-        "aliases/variables: proved only for names matching [A-Za-z_][A-Za-z0-9_]* (identifier_partial); the full statement is refuted (F9) and proved for a quoting emitter",
+        "aliases/variables: one identifier token for every name (identifier_fixed: back-ticked symbols are written as quoted identifiers since the F9 repair, bare symbols "
+        "verbatim); the value read back is the Cypher name except that unquoted names are case-folded (identifier_case_folded, known findings); the statement for the "
+        "emitter before the repair is refuted (identifier_verbatim_unsafe_old)",
     ],
     "explanation": "Values (literals, keys, inlined parameters, nested SQL) are proved for all strings; the tie runs the real translator on hostile/benign twins per "
-                   "position and the proved lexer judges the emitted text. Identifier positions violate the property on the unchanged tree (known findings).",
+                   "position and the proved lexer judges the emitted text. The model's identifier emitter is format.go formatIdentifier (F9 repair); on a tree without that repair "
+                   "the tie reports the unquoted-identifier shapes as violations and the c04q differential disagrees on back-ticked symbols.",
 }
 
 MANIFEST = {
@@ -120,9 +127,11 @@ MANIFEST = {
     "text": "Theorems for every NUL-free string, no length bound: the text formatValue writes lexes as exactly one string constant whose value is the string "
             "(pgQuote_single_token, in any clean context, token structure independent of the value); decodeCypherStringLiteral decodes exactly the tokens that denote "
             "a string and inverts NewStringLiteral; property/map keys in the ->, ->>, ?, jsonb_build_object and array positions are single constants; SQL handed to the "
-            "traversal functions (bound parameter and re-quoted literal) keeps its token structure whatever the inner value. Identifiers are written verbatim: the full "
-            "statement is refuted by the F9 witness, proved for names matching [A-Za-z_][A-Za-z0-9_]* and for a quoting emitter. The tie compares the Lean functions with "
-            "the real ones on every generated string and runs the real translator on ~90 position templates x hostile strings.",
+            "traversal functions (bound parameter and re-quoted literal) keeps its token structure whatever the inner value. Identifiers: formatIdentifier writes a back-ticked "
+            "symbol as a quoted identifier and a bare symbol verbatim, which is exactly one identifier token for every name (identifier_fixed); the verbatim emitter the code "
+            "had before is refuted by the F9 witness (identifier_verbatim_unsafe_old); exact read-back of the name fails only by case folding of unquoted names "
+            "(identifier_case_folded) and holds for an emitter quoting every identifier. The tie compares the Lean functions with the real ones on every generated string and "
+            "runs the real translator on ~115 position templates x hostile strings.",
     "note": "Trusted: Lean kernel, the lexer's fidelity to scan.l (simplifications listed in the evidence), pgx's NamedArgs rewriter (count checked per case). "
-            "Identifier positions (result alias, returned variable, count fast path alias, aggregate traversal aliases) are known findings.",
+            "Known findings: case folding of unquoted aliases/variables at four sites, LIKE escaping applied to regex operands, LIKE operands not escaped under a function.",
 }
